@@ -34,7 +34,18 @@ def run(tier, seed):
     rng = chk.rng("gen")
     n_gram = {"quick": 40, "thorough": 400}[tier]
     gk = dict(fallible=0.25, sugar=0.15)
-    subj, cases = pipeline.make_cases(chk, rng, n_gram, lambda r: (gen.gen_loc(r, **gk) if r.random() < 0.5 else gen.gen_core(r, **gk)), ALL_TAGS)
+    from .. import gen3
+
+    def genf(r):
+        k = r.random()
+        if k < 0.4:
+            return gen.gen_loc(r, **gk)
+        if k < 0.55:
+            return gen3.gen_prefix_overlap(r)
+        if k < 0.7:
+            return gen3.gen_lane_stress(r)
+        return gen.gen_core(r, **gk)
+    subj, cases = pipeline.make_cases(chk, rng, n_gram, genf, ALL_TAGS)
     irng = chk.rng("inputs")
     execs = []
     groups = []
